@@ -236,7 +236,7 @@ const FramesPerSegment = 8
 type callFrameStackSegment struct {
 	array [FramesPerSegment]callFrame
 }
-type segIdx uint16
+type segIdx uint32 // (uint16 wrapped for a CallStackSize beyond 524280: the usable depth collapsed)
 type autoGrowingCallFrameStack struct {
 	segments []*callFrameStackSegment
 	segIdx   segIdx
